@@ -55,10 +55,6 @@ func (b *Bind) handleScalarAsigntment(
 		p.Unget()
 	}
 
-	if leftT.HasDefault() {
-		return nil
-	}
-
 	if leftT.IsReadOnly() && !leftT.IsBeforeEvaluateAtmarkPrefix() {
 		return fmt.Errorf("%s is read only", leftT.GetBeforeEvaluateCode())
 	}
